@@ -160,9 +160,9 @@ OVERRIDES = [
         bounded='three names, one enclosing scope; values symbolic')),
     (r'^c36_(used|forwarded)_module_', dict(functions=['output::transform::handle_item (module-loading closures of the Item::Use and Item::Forward arms; extracted ranges run against recording stand-ins)'],
         bounded='one configured variable')),
-    (r'^c13_(get_and_has_key_|get_follows|has_key_follows|get_further)', dict(functions=['sass::functions::map::find_value (complete item, extracted)', 'map.get / map.has-key closures (complete bodies, extracted; value type instantiated at atoms + nested maps behind references)'],
+    (r'^c13_(get_and_has_key_|get_with_empty_rest|get_follows|has_key_follows|get_further)', dict(functions=['sass::functions::map::find_value (complete item, extracted)', 'map.get / map.has-key closures (complete bodies, extracted; value type instantiated at atoms + nested maps behind references)'],
         bounded='one three-entry map with a nested two-entry map; keys as rest arguments (with / without trailing comma), list, single value')),
-    (r'^c13_(get_follows|has_key_follows|get_further)', dict(kind='attempt', tier='thorough', timeout=2400)),  # measured: > 11 min each (nested lookups through the rest-argument list)
+    (r'^c13_(get_with_empty_rest|get_follows|has_key_follows|get_further)', dict(kind='attempt', tier='thorough', timeout=2400)),  # measured: > 11 min each (any lookup whose further keys come as a rest-argument list or a list, even an empty one)
     (r'^c22_level_', dict(functions=['SelectorSet::no_placeholder', 'Selector::no_placeholder', 'Selector::is_local_empty', 'CompoundSelector::no_placeholder', 'Pseudo::no_placeholder', 'Pseudo::name_in', 'pseudo::name_in (complete bodies, extracted unchanged; the type one level down is a stand-in whose no_placeholder result is chosen by the harness)'],
         bounded='lists of three complex selectors / two pseudo selectors, every combination of callee results (removed / matches anything / kept); pseudo names not, is, where, slotted, hover')),
     (r'^c11_unitset_scale_to_general_branch', dict(functions=['UnitSet::scale_to (complete body, extracted unchanged; Unit / UnitSet / Div / powi are stand-ins)'],
